@@ -28,6 +28,8 @@ ALSO = {
     "C10-m2": ["C09", "C10"],
     # string-prefix fast path in nitrogql_utils::relative_path, written as a C06 mutation (wrong `sources`): the defect is in the
     # path function, which C20's rules are about
+    # the diagnostic renderer slices a line at an offset in the wrong unit and panics: filed under C18 (exit status), it is a panic
+    "C18-r4m3": ["C18", "C08"],
     "C06-r4m3": ["C06", "C20"],
     "C06-r5m2": ["C06", "C20"],
 }
